@@ -51,6 +51,8 @@ def run(prog, rep, tier):
     # "including when new groups widen the group matrix": the block is widened exactly when a row has no group at all, by one
     # trailing column (C10's R10.5 / C05's R5.3 model of the new-group block), here R17.9
     shared.new_group_block(prog, rep, "R17.9")
+    # every block has one row per observation, also for a single observation: no axis-less squeeze on the evaluation path
+    shared.no_axisless_squeeze(prog, rep, "R17.10")
     rep.floor("R17.1", 18)
     rep.floor("R17.3", 8)
     rep.floor("R17.5", 10)
